@@ -33,9 +33,10 @@ BaseUsers ==
   {Ent(U1,
        [x \in {"n", "rec"} \cup opts |->
           CASE x = "n" -> LL(1) [] x = "rec" -> rec [] x = "opt" -> SS(<<120>>) [] x = "mgr" -> U2
-            [] x = "fav" -> Red [] x = "colors" -> cols],
+            [] x = "fav" -> Red [] x = "colors" -> cols
+            [] x = "palette" -> ST({RR([c |-> Red]), RR([c |-> Green])}) [] x = "grid" -> ST({ST({Red}), ST({})})],
        tags, anc)
-   : opts \in SUBSET {"opt", "mgr", "fav", "colors"}, rec \in RecOk,
+   : opts \in {{}, {"opt"}, {"mgr", "fav"}, {"colors"}, {"palette"}, {"grid"}, {"opt", "mgr", "fav", "colors", "palette", "grid"}}, rec \in RecOk,
      cols \in {ST({}), ST({Red, Green})}, tags \in {{}, {<<<<107>>, LL(5)>>}}, anc \in {{}, {G1}, {G1, O1}}}
 BaseDocs ==
   {Ent(D1, [x \in {"owner", "labels"} \cup opts |->
@@ -52,7 +53,9 @@ BaseOther ==
 BaseEntities == BaseUsers \cup BaseDocs \cup BaseOther
 
 \* ---- single faults
-WrongVals == {LL(7), SS(<<119>>), BB(TRUE), U1, G1, D1, Blue, ST({LL(1)}), ST({Blue}), ST({Red, LL(1)}), RR(<<>>),
+WrongVals == {ST({RR([c |-> Blue])}), ST({RR([c |-> Red]), RR([c |-> Blue])}), ST({ST({Blue})}), ST({ST({Red, Blue})}), ST({RR([c |-> LL(1)])}),
+              ST({RR(<<>>)}), ST({ST({LL(1)})}), ST({RR([c |-> Red])}), ST({ST({Green})}),
+              LL(7), SS(<<119>>), BB(TRUE), U1, G1, D1, Blue, ST({LL(1)}), ST({Blue}), ST({Red, LL(1)}), RR(<<>>),
               RR([flag |-> LL(1)]), RR([flag |-> BB(TRUE), extra |-> LL(1)]), RR([flag |-> BB(TRUE), inner |-> SS(<<>>)])}
 MutAttrValue(e) == {[e EXCEPT !.attrs = PutA(@, k, w)] : k \in DOMAIN e.attrs, w \in WrongVals}
 MutDropAttr(e) == {[e EXCEPT !.attrs = DelA(@, k)] : k \in DOMAIN e.attrs}
@@ -70,7 +73,9 @@ Resources == {D1, F1, U1, Red, Ghost}
 Contexts == { RR([flag |-> BB(TRUE)]), RR([flag |-> BB(FALSE), note |-> SS(<<110>>)]), RR([flag |-> BB(TRUE), who |-> U2]),
               RR([flag |-> BB(TRUE), tint |-> Red]), RR(<<>>), RR([flag |-> LL(1)]), RR([flag |-> BB(TRUE), extra |-> LL(1)]),
               RR([flag |-> BB(TRUE), who |-> G1]), RR([flag |-> BB(TRUE), tint |-> Blue]), RR([flag |-> BB(TRUE), note |-> LL(1)]),
-              RR([note |-> SS(<<>>)]) }
+              RR([note |-> SS(<<>>)]),
+              RR([flag |-> BB(TRUE), tints |-> ST({RR([c |-> Green])})]), RR([flag |-> BB(TRUE), tints |-> ST({RR([c |-> Blue])})]),
+              RR([flag |-> BB(TRUE), tints |-> ST({RR([c |-> Red]), RR([c |-> Blue])})]), RR([flag |-> BB(TRUE), tints |-> ST({RR(<<>>)})]) }
 ReqOf(p) == {[principal |-> p, action |-> a, resource |-> r, context |-> x] : a \in Actions, r \in Resources, x \in Contexts}
 
 \* one seed state per base entity (its successors: itself and its mutants) and one per principal (requests)
@@ -84,7 +89,7 @@ Next == /\ c = <<>>
 
 \* ---------------------------------------------------------------- binding M
 BaseSmall == {e \in BaseUsers : e.tags = {} /\ e.anc = {G1} /\ e.attrs["rec"] = RR([flag |-> BB(TRUE)])
-                                 /\ DOMAIN e.attrs \in {{"n", "rec"}, {"n", "rec", "opt", "mgr", "fav", "colors"}}}
+                                 /\ DOMAIN e.attrs \in {{"n", "rec"}, {"n", "rec", "opt", "mgr", "fav", "colors", "palette", "grid"}}}
              \cup {e \in BaseDocs : e.tags = {} /\ e.anc = {F1}}
 BasesConform == \A e \in BaseEntities : ConformsEntity(Sc, e)
 \* each fault class really is a fault on the bases it is meant for
